@@ -4,24 +4,29 @@ import (
 	"fmt"
 
 	"github.com/creachadair/mds/ring"
+	"verif/elem"
 	"verif/vk"
 )
 
 // ---------------------------------------------------------------------------
 // ring.Ring.  Model: a set of cycles of element ids (in Next order).  Every
 // element carries its id (1,2,...) as its Value, so Each/Peek are informative.
+// (With an element kind other than int the Value is the element that stands
+// for the id: the one handed to Of, or the one stored after New.)
 
 // RingCase is a history over a pool of ring elements.
 type RingCase struct {
-	Ops []Op `json:"ops"`
+	Elem string `json:"elem,omitempty"` // element kind (see kinds.go); "" = int
+	Ops  []Op   `json:"ops"`
 }
 
 const maxElems = 24 // small rings; "newBig"/"ofBig" may add one large ring on top (up to 24+300 elements)
 
-type ringRun struct {
+type ringRun[T any] struct {
+	b    *bound[T]
 	c    RingCase
-	el   []*ring.Ring[int] // el[id-1]
-	ids  map[*ring.Ring[int]]int
+	el   []*ring.Ring[T] // el[id-1]
+	ids  map[*ring.Ring[T]]int
 	cyc  [][]int
 	step int
 
@@ -31,21 +36,21 @@ type ringRun struct {
 	maxCycle                                                         int
 }
 
-func (r *ringRun) errf(format string, args ...any) string {
-	return fmt.Sprintf("ring %s: %s  [reference cycles %v]", opCtx(r.step, r.c.Ops), fmt.Sprintf(format, args...), r.cyc)
+func (r *ringRun[T]) errf(format string, args ...any) string {
+	return fmt.Sprintf("ring %s: %s  [reference cycles %v]%s", opCtx(r.step, r.c.Ops), fmt.Sprintf(format, args...), r.cyc, r.b.note())
 }
 
-func (r *ringRun) name(p *ring.Ring[int]) string {
+func (r *ringRun[T]) name(p *ring.Ring[T]) string {
 	if p == nil {
 		return "nil"
 	}
 	if id, ok := r.ids[p]; ok {
 		return fmt.Sprintf("e%d", id)
 	}
-	return fmt.Sprintf("an unknown element (Value %d)", p.Value)
+	return fmt.Sprintf("an unknown element (Value %s)", r.b.show(p.Value))
 }
 
-func (r *ringRun) find(id int) (ci, pos int) {
+func (r *ringRun[T]) find(id int) (ci, pos int) {
 	for ci, c := range r.cyc {
 		for pos, x := range c {
 			if x == id {
@@ -57,7 +62,7 @@ func (r *ringRun) find(id int) (ci, pos int) {
 }
 
 // rot returns the cycle of id rotated so that it starts at id (a copy).
-func (r *ringRun) rot(id int) []int {
+func (r *ringRun[T]) rot(id int) []int {
 	ci, pos := r.find(id)
 	c := r.cyc[ci]
 	out := make([]int, 0, len(c))
@@ -65,14 +70,14 @@ func (r *ringRun) rot(id int) []int {
 	return append(out, c[:pos]...)
 }
 
-func (r *ringRun) dropCycle(ci int) {
+func (r *ringRun[T]) dropCycle(ci int) {
 	r.cyc = append(r.cyc[:ci], r.cyc[ci+1:]...)
 }
 
 // register walks the n elements of a freshly built ring and gives them ids.
 // wantZero: the elements must hold zero values (New); otherwise they must hold
 // the ids they are about to get, in order (Of was called with those).
-func (r *ringRun) register(what string, head *ring.Ring[int], n int, wantZero bool) string {
+func (r *ringRun[T]) register(what string, head *ring.Ring[T], n int, wantZero bool) string {
 	if n <= 0 {
 		if head != nil {
 			return r.errf("%s returned a non-empty ring, want nil (the empty ring)", what)
@@ -97,10 +102,12 @@ func (r *ringRun) register(what string, head *ring.Ring[int], n int, wantZero bo
 		if wantZero {
 			want = 0
 		}
-		if cur.Value != want {
-			return r.errf("%s: element #%d in Next order holds %d, want %d", what, i, cur.Value, want)
+		if !r.b.is(cur.Value, want) {
+			return r.errf("%s: element #%d in Next order holds %s, want %s", what, i, r.b.show(cur.Value), r.b.want(want))
 		}
-		cur.Value = id
+		if wantZero {
+			cur.Value = r.b.in(id)
+		}
 		r.el = append(r.el, cur)
 		r.ids[cur] = id
 		cyc = append(cyc, id)
@@ -114,7 +121,7 @@ func (r *ringRun) register(what string, head *ring.Ring[int], n int, wantZero bo
 }
 
 // check is the oracle run after every operation: from every element.
-func (r *ringRun) check() string {
+func (r *ringRun[T]) check() string {
 	total := 0
 	for _, c := range r.cyc {
 		total += len(c)
@@ -129,7 +136,7 @@ func (r *ringRun) check() string {
 		id := i + 1
 		c := r.rot(id)
 		L := len(c)
-		at := func(k int) *ring.Ring[int] { return r.el[c[((k%L)+L)%L]-1] }
+		at := func(k int) *ring.Ring[T] { return r.el[c[((k%L)+L)%L]-1] }
 		if got := e.Next(); got != at(1) {
 			return r.errf("e%d.Next() = %s, want %s", id, r.name(got), r.name(at(1)))
 		}
@@ -142,8 +149,8 @@ func (r *ringRun) check() string {
 		if got := e.Prev().Next(); got != e {
 			return r.errf("e%d.Prev().Next() = %s, want e%d (Next and Prev must be mutually inverse)", id, r.name(got), id)
 		}
-		if e.Value != id {
-			return r.errf("e%d.Value = %d, want %d", id, e.Value, id)
+		if !r.b.is(e.Value, id) {
+			return r.errf("e%d.Value = %s, want %s", id, r.b.show(e.Value), r.b.want(id))
 		}
 		if e.IsEmpty() {
 			return r.errf("e%d.IsEmpty() = true for a ring element", id)
@@ -154,10 +161,10 @@ func (r *ringRun) check() string {
 		if L > 40 && i%7 != 0 && i != len(r.el)-1 {
 			continue
 		}
-		var got []int
-		e.Each(func(v int) bool { got = append(got, v); return len(got) < len(r.el)+8 })
-		if !eqInts(got, c) {
-			return r.errf("e%d.Each lists %v, want %v", id, got, c)
+		got := make([]T, 0, L)
+		e.Each(func(v T) bool { got = append(got, v); return len(got) < len(r.el)+8 })
+		if !r.b.eq(got, c) {
+			return r.errf("e%d.Each lists %s, want %s", id, r.b.list(got), r.b.wants(c))
 		}
 		if got := e.Len(); got != L {
 			return r.errf("e%d.Len() = %d, want %d", id, got, L)
@@ -173,8 +180,8 @@ func (r *ringRun) check() string {
 				if gotE != at(n) {
 					return r.errf("e%d.At(%d) = %s, want %s (ring of %d)", id, n, r.name(gotE), r.name(at(n)), L)
 				}
-				if !gotOK || gotV != at(n).Value {
-					return r.errf("e%d.Peek(%d) = (%d, %v), want (%d, true) (ring of %d)", id, n, gotV, gotOK, at(n).Value, L)
+				if !gotOK || !r.b.same(gotV, at(n).Value) {
+					return r.errf("e%d.Peek(%d) = (%s, %v), want (%s, true) (ring of %d)", id, n, r.b.show(gotV), gotOK, r.b.show(at(n).Value), L)
 				}
 			case abs(n) == L:
 				// The comment says "greater than the length"; the code (and
@@ -182,15 +189,15 @@ func (r *ringRun) check() string {
 				if gotE != nil && gotE != e {
 					return r.errf("e%d.At(%d) = %s on a ring of %d, want nil or e%d itself", id, n, r.name(gotE), L, id)
 				}
-				if gotOK != (gotE != nil) || (gotOK && gotV != id) || (!gotOK && gotV != 0) {
-					return r.errf("e%d.Peek(%d) = (%d, %v) on a ring of %d while At(%d) = %s", id, n, gotV, gotOK, L, n, r.name(gotE))
+				if gotOK != (gotE != nil) || (gotOK && !r.b.is(gotV, id)) || (!gotOK && !r.b.zero(gotV)) {
+					return r.errf("e%d.Peek(%d) = (%s, %v) on a ring of %d while At(%d) = %s", id, n, r.b.show(gotV), gotOK, L, n, r.name(gotE))
 				}
 			default:
 				if gotE != nil {
 					return r.errf("e%d.At(%d) = %s on a ring of %d, want nil (|n| exceeds the length)", id, n, r.name(gotE), L)
 				}
-				if gotOK || gotV != 0 {
-					return r.errf("e%d.Peek(%d) = (%d, %v) on a ring of %d, want (0, false)", id, n, gotV, gotOK, L)
+				if gotOK || !r.b.zero(gotV) {
+					return r.errf("e%d.Peek(%d) = (%s, %v) on a ring of %d, want (%s, false)", id, n, r.b.show(gotV), gotOK, L, r.b.want(0))
 				}
 			}
 		}
@@ -198,7 +205,7 @@ func (r *ringRun) check() string {
 	return ""
 }
 
-func (r *ringRun) doJoin(rid, sid int) string {
+func (r *ringRun[T]) doJoin(rid, sid int) string {
 	re, se := r.el[rid-1], r.el[sid-1]
 	rc, _ := r.find(rid)
 	sc, _ := r.find(sid)
@@ -253,7 +260,7 @@ func (r *ringRun) doJoin(rid, sid int) string {
 		r.cyc = append(r.cyc, res)
 	}
 	got := re.Join(se)
-	var want *ring.Ring[int]
+	var want *ring.Ring[T]
 	if wantRet != 0 {
 		want = r.el[wantRet-1]
 	}
@@ -263,7 +270,7 @@ func (r *ringRun) doJoin(rid, sid int) string {
 	return ""
 }
 
-func (r *ringRun) apply(op Op) string {
+func (r *ringRun[T]) apply(op Op) string {
 	a, b := abs(op.A), abs(op.B)
 	E := len(r.el)
 	switch op.K {
@@ -273,7 +280,7 @@ func (r *ringRun) apply(op Op) string {
 			r.skipped++
 			return ""
 		}
-		return r.register(fmt.Sprintf("New(%d)", n), ring.New[int](n), n, true)
+		return r.register(fmt.Sprintf("New(%d)", n), ring.New[T](n), n, true)
 	case "of":
 		k := a % 6
 		if E+k > maxElems {
@@ -284,7 +291,7 @@ func (r *ringRun) apply(op Op) string {
 		for i := range vs {
 			vs[i] = E + 1 + i
 		}
-		return r.register(fmt.Sprintf("Of(%d values)", k), ring.Of(vs...), k, false)
+		return r.register(fmt.Sprintf("Of(%d values)", k), ring.Of(r.b.ins(vs)...), k, false)
 	case "newBig", "ofBig":
 		// one large ring (sizes around internal block sizes); allowed once per history
 		if E > maxElems {
@@ -294,16 +301,16 @@ func (r *ringRun) apply(op Op) string {
 		sizes := []int{31, 32, 33, 63, 64, 65, 70, 96, 97, 127, 128, 129, 200, 256, 257, 300}
 		n := sizes[a%len(sizes)]
 		if op.K == "newBig" {
-			return r.register(fmt.Sprintf("New(%d)", n), ring.New[int](n), n, true)
+			return r.register(fmt.Sprintf("New(%d)", n), ring.New[T](n), n, true)
 		}
 		vs := make([]int, n)
 		for i := range vs {
 			vs[i] = E + 1 + i
 		}
-		return r.register(fmt.Sprintf("Of(%d values)", n), ring.Of(vs...), n, false)
+		return r.register(fmt.Sprintf("Of(%d values)", n), ring.Of(r.b.ins(vs)...), n, false)
 	case "nil":
 		r.nilOps++
-		var z *ring.Ring[int]
+		var z *ring.Ring[T]
 		if got := z.Len(); got != 0 {
 			return r.errf("nil ring: Len = %d, want 0", got)
 		}
@@ -311,7 +318,7 @@ func (r *ringRun) apply(op Op) string {
 			return r.errf("nil ring: IsEmpty = false")
 		}
 		calls := 0
-		z.Each(func(int) bool { calls++; return true })
+		z.Each(func(T) bool { calls++; return true })
 		if calls != 0 {
 			return r.errf("nil ring: Each made %d callbacks", calls)
 		}
@@ -319,8 +326,8 @@ func (r *ringRun) apply(op Op) string {
 		if got := z.At(n); got != nil {
 			return r.errf("nil ring: At(%d) = %s, want nil", n, r.name(got))
 		}
-		if v, ok := z.Peek(n); ok || v != 0 {
-			return r.errf("nil ring: Peek(%d) = (%d, %v), want (0, false)", n, v, ok)
+		if v, ok := z.Peek(n); ok || !r.b.zero(v) {
+			return r.errf("nil ring: Peek(%d) = (%s, %v), want (%s, false)", n, r.b.show(v), ok, r.b.want(0))
 		}
 		if got := z.Pop(); got != nil {
 			return r.errf("nil ring: Pop = %s, want nil", r.name(got))
@@ -369,21 +376,43 @@ func (r *ringRun) apply(op Op) string {
 	case "each":
 		c := r.rot(rid)
 		j := b%len(c) + 1
-		var got []int
-		r.el[rid-1].Each(func(v int) bool { got = append(got, v); return len(got) < j })
+		var got []T
+		r.el[rid-1].Each(func(v T) bool { got = append(got, v); return len(got) < j })
 		if len(got) != j {
 			return r.errf("e%d.Each made %d callbacks although the callback returned false at #%d", rid, len(got), j)
 		}
-		if !eqInts(got, c[:j]) {
-			return r.errf("e%d.Each (stopped at %d) lists %v, want %v", rid, j, got, c[:j])
+		if !r.b.eq(got, c[:j]) {
+			return r.errf("e%d.Each (stopped at %d) lists %s, want %s", rid, j, r.b.list(got), r.b.wants(c[:j]))
 		}
 		return ""
 	}
 	return r.errf("VK-INFRA unknown op kind %q", op.K)
 }
 
+// runRing instantiates the interpreter with the case's element kind.
 func runRing(c RingCase, o *vk.Obs) string {
-	r := &ringRun{c: c, step: -1, ids: map[*ring.Ring[int]]int{}}
+	elem.ResetPtr()
+	switch c.Elem {
+	case "", elem.Int:
+		return runRingOf(c, o, cmpBound(elem.IntKit()))
+	case elem.Str:
+		return runRingOf(c, o, cmpBound(elem.StrKit()))
+	case elem.I16:
+		return runRingOf(c, o, cmpBound(elem.I16Kit()))
+	case elem.Wide:
+		return runRingOf(c, o, cmpBound(elem.WideKit()))
+	case elem.Ptr:
+		return runRingOf(c, o, cmpBound(elem.PtrKit()))
+	case elem.Any:
+		return runRingOf(c, o, cmpBound(elem.AnyKit()))
+	case elem.Bytes:
+		return runRingOf(c, o, bytesBound())
+	}
+	return badKind(c.Elem)
+}
+
+func runRingOf[T any](c RingCase, o *vk.Obs, b *bound[T]) string {
+	r := &ringRun[T]{b: b, c: c, step: -1, ids: map[*ring.Ring[T]]int{}}
 	ctx := r.errf
 	for i, op := range c.Ops {
 		r.step = i
@@ -399,6 +428,7 @@ func runRing(c RingCase, o *vk.Obs) string {
 	if r.joinSameFar+r.joinSamePred > 0 && r.joinDiff > 0 {
 		o.NonTrivial()
 	}
+	o.Class("elem=" + kindName(c.Elem))
 	o.ClassIf(r.joinIdentical > 0, "join_identical")
 	o.ClassIf(r.joinAdjacent > 0, "join_same_ring_adjacent")
 	o.ClassIf(r.joinSameFar > 0, "join_same_ring_distance>=2")
